@@ -62,6 +62,56 @@ def k5_surplus(ch, s, stop, hidden, maxlevel, decl):
     return out
 
 
+
+def phase2_norm(phase2):
+    """phase2 as a dict: stop, hidden (new answers of the predicates), optional maxlevel (attribute reassigned on the
+    exporter object), rename {label: new name}, move (a, b) = a.parent = b, abort (an iteration aborted by a raising
+    user function before the verified one)."""
+    if phase2 is None:
+        return None
+    if isinstance(phase2, dict):
+        d = dict(phase2)
+    else:
+        d = {"stop": phase2[0], "hidden": phase2[1]}
+    d["stop"] = frozenset(d.get("stop", ()))
+    d["hidden"] = frozenset(d.get("hidden", ()))
+    if d.get("rename"):
+        d["rename"] = {int(k): v for k, v in d["rename"].items()}
+    return d
+
+
+def phase2_json(d):
+    if d is None:
+        return None
+    out = {"stop": sorted(d["stop"]), "hidden": sorted(d["hidden"])}
+    for k in ("maxlevel", "move", "abort"):
+        if k in d:
+            out[k] = d[k]
+    if d.get("rename"):
+        out["rename"] = {str(k): v for k, v in d["rename"].items()}
+    return out
+
+
+def apply_phase2_to_tree(d, nodes, names, ch):
+    """Renames and moves between the two iterations; returns (names2, ch2)."""
+    names2 = list(names)
+    for x, new in (d.get("rename") or {}).items():
+        names2[x] = new
+        nodes[x].name = new
+    ch2 = [list(c) for c in ch]
+    if d.get("move"):
+        a, b = d["move"]
+        nodes[a].parent = nodes[b]
+        for c in ch2:
+            if a in c:
+                c.remove(a)
+        ch2[b].append(a)
+    return names2, ch2
+
+
+class AbortIteration(Exception):
+    pass
+
 # ------------------------------------------------------------------ DOT
 def check_dot(ctx, prop, exporter_kind, lib, nodes, idmap, names, par, ch, s, stop, hidden, maxlevel, custom, case, known, phase2=None):
     """phase2 = (stop2, hidden2): after the first verified iteration the predicates' answers change (they read a
@@ -70,8 +120,9 @@ def check_dot(ctx, prop, exporter_kind, lib, nodes, idmap, names, par, ch, s, st
     import anytree.dotexport
 
     lab = lambda n: idmap[id(n)]  # noqa: E731
+    phase2 = phase2_norm(phase2)
     kw = {}
-    cur = {"stop": stop, "hidden": hidden}
+    cur = {"stop": stop, "hidden": hidden, "abort": None}
     if stop or phase2:
         kw["stop"] = lambda n: lab(n) in cur["stop"]
     if hidden or phase2:
@@ -91,11 +142,17 @@ def check_dot(ctx, prop, exporter_kind, lib, nodes, idmap, names, par, ch, s, st
         options = custom["options"]
         kw.update(indent=indent, graph=graph, name=gname, options=options)
         if custom.get("namefunc"):
-            namefn = lambda x: "%s:%d" % (names[x], x)  # noqa: E731
+            namefn = lambda x: "%s:%d" % (cur.get("names", names)[x], x)  # noqa: E731
             kw["nodenamefunc"] = lambda n: "%s:%d" % (n.name, lab(n))
         if custom.get("nattr"):
-            nattr = lambda x: 'shape=box, label="%s"' % (names[x],)  # noqa: E731
-            kw["nodeattrfunc"] = lambda n: 'shape=box, label="%s"' % (n.name,)
+            nattr = lambda x: 'shape=box, label="%s"' % (cur.get("names", names)[x],)  # noqa: E731
+
+            def _nattr(n):
+                if cur["abort"] is not None and lab(n) == cur["abort"]:
+                    raise AbortIteration()
+                return 'shape=box, label="%s"' % (n.name,)
+
+            kw["nodeattrfunc"] = _nattr
         if custom.get("eattr"):
             eattr = lambda p, c: "label=%d_%d" % (p, c)  # noqa: E731
             kw["edgeattrfunc"] = lambda p, c: "label=%d_%d" % (lab(p), lab(c))
@@ -120,7 +177,7 @@ def check_dot(ctx, prop, exporter_kind, lib, nodes, idmap, names, par, ch, s, st
 
     def bad(what, expected, observed):
         ctx.violation("%s/%s/%s%s" % (prop, exporter_kind, what, "/after-predicate-change" if phase["n"] == 2 else ""), "dot-structure",
-                      dict(cfg, phase2=[sorted(phase2[0]), sorted(phase2[1])] if phase2 else None), expected=expected, observed=observed)
+                      dict(cfg, phase2=phase2_json(phase2)), expected=expected, observed=observed)
         return False
 
     if lines2 != lines:
@@ -130,10 +187,27 @@ def check_dot(ctx, prop, exporter_kind, lib, nodes, idmap, names, par, ch, s, st
     if phase2:
         ids1 = phase["ids"]
         phase["n"] = 2
-        cur["stop"], cur["hidden"] = phase2
+        if phase2.get("abort") is not None and nattr is not None:
+            # an iteration aborted by a raising user function, then the same object is used again
+            cur["abort"] = phase2["abort"]
+            try:
+                list(ex)
+            except AbortIteration:
+                ctx.count("%s.aborted_iteration_then_reuse" % prop)
+            cur["abort"] = None
+        cur["stop"], cur["hidden"] = phase2["stop"], phase2["hidden"]
+        names2, ch2 = apply_phase2_to_tree(phase2, nodes, names, ch)
+        cur["names"] = names2
+        ml2 = maxlevel
+        if "maxlevel" in phase2:
+            ml2 = phase2["maxlevel"]
+            ex.maxlevel = ml2
+            ctx.count("%s.attribute_reassigned" % prop)
+        if phase2.get("rename") or phase2.get("move"):
+            ctx.count("%s.tree_changed_between_iterations" % prop)
         ctx.count("%s.predicate_change" % prop)
         lines3 = list(ex)
-        if not _verify_dot(ctx, prop, lines3, bad, ind, graph, gname, options, ch, s, phase2[0], phase2[1], maxlevel, names, namefn, nattr, eattr, edgetype, exporter_kind, unique_default, known, cfg, phase):
+        if not _verify_dot(ctx, prop, lines3, bad, ind, graph, gname, options, ch2, s, phase2["stop"], phase2["hidden"], ml2, names2, namefn, nattr, eattr, edgetype, exporter_kind, unique_default, known, cfg, phase):
             return False
         if unique_default:
             ids2 = phase["ids"]
@@ -256,8 +330,9 @@ def check_mermaid(ctx, prop, lib, nodes, idmap, names, par, ch, s, stop, hidden,
     from anytree.exporter import MermaidExporter
 
     lab = lambda n: idmap[id(n)]  # noqa: E731
+    phase2 = phase2_norm(phase2)
     kw = {}
-    cur = {"stop": stop, "hidden": hidden}
+    cur = {"stop": stop, "hidden": hidden, "abort": None}
     if stop or phase2:
         kw["stop"] = lambda n: lab(n) in cur["stop"]
     if hidden or phase2:
@@ -277,8 +352,14 @@ def check_mermaid(ctx, prop, lib, nodes, idmap, names, par, ch, s, stop, hidden,
             namefn = lambda x: "id%d" % x  # noqa: E731
             kw["nodenamefunc"] = lambda n: "id%d" % lab(n)
         if custom.get("nattr"):
-            nodefn = lambda x: "(%s #%d)" % (names[x], x)  # noqa: E731
-            kw["nodefunc"] = lambda n: "(%s #%d)" % (n.name, lab(n))
+            nodefn = lambda x: "(%s #%d)" % (cur.get("names", names)[x], x)  # noqa: E731
+
+            def _nodefunc(n):
+                if cur["abort"] is not None and lab(n) == cur["abort"]:
+                    raise AbortIteration()
+                return "(%s #%d)" % (n.name, lab(n))
+
+            kw["nodefunc"] = _nodefunc
         if custom.get("eattr"):
             edgefn = lambda p, c: "--%d.%d-->" % (p, c)  # noqa: E731
             kw["edgefunc"] = lambda p, c: "--%d.%d-->" % (lab(p), lab(c))
@@ -292,7 +373,7 @@ def check_mermaid(ctx, prop, lib, nodes, idmap, names, par, ch, s, stop, hidden,
 
     def bad(what, expected, observed):
         ctx.violation("%s/mermaid/%s%s" % (prop, what, "/after-predicate-change" if phase["n"] == 2 else ""), "mermaid-structure",
-                      dict(cfg, phase2=[sorted(phase2[0]), sorted(phase2[1])] if phase2 else None), expected=expected, observed=observed)
+                      dict(cfg, phase2=phase2_json(phase2)), expected=expected, observed=observed)
         return False
 
     if lines2 != lines:
@@ -302,9 +383,26 @@ def check_mermaid(ctx, prop, lib, nodes, idmap, names, par, ch, s, stop, hidden,
     if phase2:
         ids1 = phase["ids"]
         phase["n"] = 2
-        cur["stop"], cur["hidden"] = phase2
+        if phase2.get("abort") is not None and nodefn is not None:
+            cur["abort"] = phase2["abort"]
+            try:
+                list(ex)
+            except AbortIteration:
+                ctx.count("%s.aborted_iteration_then_reuse" % prop)
+            cur["abort"] = None
+        cur["stop"], cur["hidden"] = phase2["stop"], phase2["hidden"]
+        names2, ch2 = apply_phase2_to_tree(phase2, nodes, names, ch)
+        cur["names"] = names2
+        ml2 = maxlevel
+        if "maxlevel" in phase2:
+            ml2 = phase2["maxlevel"]
+            ex.maxlevel = ml2
+            ctx.count("%s.attribute_reassigned" % prop)
+        if phase2.get("rename") or phase2.get("move"):
+            ctx.count("%s.tree_changed_between_iterations" % prop)
         ctx.count("%s.predicate_change" % prop)
-        if not _verify_mermaid(ctx, prop, list(ex), bad, ind, graph, gname, options, ch, s, phase2[0], phase2[1], maxlevel, names, namefn, nodefn, edgefn, phase):
+        names, ch = names2, ch2
+        if not _verify_mermaid(ctx, prop, list(ex), bad, ind, graph, gname, options, ch2, s, phase2["stop"], phase2["hidden"], ml2, names2, namefn, nodefn, edgefn, phase):
             return False
         if namefn is None:
             ids2 = phase["ids"]
@@ -388,6 +486,31 @@ def check_dotfile(ctx, prop, lib, node, workdir, cfg):
     return True
 
 
+def random_phase2(rng, n, par, s):
+    """What changes between two iterations of one exporter object."""
+    d = {"stop": frozenset(x for x in range(n) if rng.random() < 0.2), "hidden": frozenset(x for x in range(n) if rng.random() < 0.3)}
+    r = rng.random()
+    if r < 0.35:
+        d["maxlevel"] = rng.choice([None, 0, 1, 2, 3])
+    if rng.random() < 0.4:
+        d["rename"] = {rng.randrange(n): rng.choice(["ren", 'r"q', "a", "b\\"]) for _ in range(rng.randint(1, 2))}
+    if rng.random() < 0.4 and n >= 3:
+        # a legal move: a is not the start node's ancestor..., b not inside a's subtree
+        from .. import ref as R
+        ch = [[] for _ in range(n)]
+        for i, p in enumerate(par):
+            if p is not None:
+                ch[p].append(i)
+        a = rng.randrange(1, n)
+        sub = set(R.preorder_iter(ch, a))
+        cands = [b for b in range(n) if b not in sub and b != par[a]]
+        if cands:
+            d["move"] = [a, rng.choice(cands)]
+    if rng.random() < 0.3:
+        d["abort"] = rng.randrange(n)
+    return d
+
+
 CUSTOMS = [
     None,
     {"indent": 2, "graph": "graph", "name": "G", "options": ["rankdir=LR;", 'node [shape="box"];'], "namefunc": True, "nattr": True, "eattr": True, "etype": True},
@@ -395,7 +518,7 @@ CUSTOMS = [
     {"indent": 7, "graph": "digraph", "name": "t", "options": ["a=b;"], "nattr": True, "eattr": True},
 ]
 
-HOSTILE_NAMES = ['a"b', "back\\slash", 'q"\\"', "sp ace", "é中", "\\", '"', "a\\\\b", "x;y", "tab\tz", "n{}", "->", "[lbl]", "a", "a", "b", "\U0001f600", "new\nline", "'", "%s"]
+HOSTILE_NAMES = ['a"b', "back\\slash", 'q"\\"', "sp ace", "é中", "\\", '"', "a\\\\b", "x;y", "tab\tz", "n{}", "->", "[lbl]", "a", "a", "b", "\U0001f600", "new\nline", "'", "%s", ("it's", 'q"', 1), 3.5, None, ("\\",)]
 
 
 def hostile_names(rng, n, collide):
